@@ -181,7 +181,18 @@ def install(M):
             return SMat(z3.Const(I.path.names.fresh("arr"), Mat), cells=lambda i, j: to_real(row.at(j)), shape=(1, row.length), ident=object())
         raise Unsupported(f"np.array({v!r})")
 
+    def np_diag(I, args, kw):
+        v = args[0]
+        if isinstance(v, SMat):
+            raise Unsupported("np.diag of a matrix")
+        from .interp import as_seq2
+
+        row = as_seq2(I.iter_seq(v)) if not isinstance(v, SSeq) else v
+        n = row.length
+        return SMat(z3.Const(I.path.names.fresh("diag"), Mat), cells=lambda i, j: z3.If(i == j, to_real(row.at(i)), z3.RealVal(0)), shape=(n, n), ident=object())
+
     np_attrs = {
+        "diag": Builtin("np.diag", np_diag),
         "array": Builtin("np.array", np_array),
         "abs": Builtin("np.abs", np_abs),
         "max": Builtin("np.max", np_max),
